@@ -111,6 +111,7 @@ pub fn exp_c03(e: &mut Exp) {
         let relerr = hll0.relative_error();
         // one pass per seed, reading the estimate whenever a grid point is reached
         let mut errs: Vec<Vec<f64>> = vec![vec![]; grid.len()];
+        let mut panics = 0u64;
         for _ in 0..seeds {
             let mut h = HyperLogLog::<u64>::new(b);
             let mut sm = SplitMix(e.rng.next());
@@ -120,7 +121,16 @@ pub fn exp_c03(e: &mut Exp) {
                     h.add_hashed(sm.next());
                     n += 1;
                 }
-                let c = h.count() as f64;
+                let c = match catch_unwind(AssertUnwindSafe(|| h.count())) {
+                    Ok(c) => c as f64,
+                    Err(_) => {
+                        if panics < 3 {
+                            e.fails.push(format!("hll b={}: count() panicked after {} distinct random hashes (hash stream seed index {})", b, g, e.evals));
+                        }
+                        panics += 1;
+                        *g as f64
+                    }
+                };
                 errs[gi].push(if *g == 0 { c } else { (c - *g as f64) / *g as f64 });
             }
             e.evals += 1;
